@@ -60,6 +60,7 @@ class ModuleInfo:
     classes: dict[str, ast.ClassDef] = field(default_factory=dict)
     methods: dict[str, dict[str, ast.FunctionDef]] = field(default_factory=dict)
     class_aliases: dict[str, dict[str, str]] = field(default_factory=dict)  # cls -> alias -> method
+    class_bindings: dict[str, dict[str, ast.expr]] = field(default_factory=dict)  # cls -> name -> class-body value
     imports: dict[str, tuple[str, str | None]] = field(default_factory=dict)
     assigns: dict[str, ast.expr] = field(default_factory=dict)
 
@@ -117,6 +118,13 @@ class Repo:
                             aliases[sub.targets[0].id] = sub.value.id
                     mi.methods[node.name] = meths
                     mi.class_aliases[node.name] = aliases
+                    binds: dict[str, ast.expr] = {}
+                    for sub in node.body:
+                        tg = sub.targets if isinstance(sub, ast.Assign) else [sub.target] if isinstance(sub, ast.AnnAssign) and sub.value is not None else []
+                        for t in tg:
+                            if isinstance(t, ast.Name):
+                                binds[t.id] = sub.value  # type: ignore[assignment]
+                    mi.class_bindings[node.name] = binds
                 elif isinstance(node, ast.Import):
                     for a in node.names:
                         mi.imports[(a.asname or a.name).split(".")[0]] = (a.name, None)
@@ -143,6 +151,15 @@ class Repo:
                 if target not in mi.methods[cname] and target in mi.functions:
                     mi.methods[cname][alias] = mi.functions[target]
                     del aliases[alias]
+        # class-body methods made by a module-level factory (``metadata = _pairs_rule("metadata")``): the
+        # closure the factory returns, with the factory's constant arguments substituted, is the method
+        for cname, binds in mi.class_bindings.items():
+            for name, value in binds.items():
+                if name in mi.methods[cname] or not (isinstance(value, ast.Call) and isinstance(value.func, ast.Name) and value.func.id in mi.functions):
+                    continue
+                fn = specialise_factory(mi.functions[value.func.id], value, name)
+                if fn is not None:
+                    mi.methods[cname][name] = fn
 
     # -- lookup ------------------------------------------------------------------------------
 
@@ -207,13 +224,48 @@ class Repo:
                 except NotConstant:
                     pass
             raise AnalysisError(f"anchor vanished: constant {mod}.{name}")
-        return fold(mi.assigns[name], lambda n: self._const_lookup(mi, n))
+        return self._fold_or_eval(mi, name)
+
+    def _fold_or_eval(self, mi: ModuleInfo, name: str) -> Any:
+        """Value of a module-level table: constant folding first; where the table is built by code fold()
+        does not cover (a multi-statement helper, a NamedTuple registry ...) the module-level expression is
+        evaluated by the abstract interpreter and accepted when the result is fully concrete."""
+        try:
+            return fold(mi.assigns[name], lambda n: self._const_lookup(mi, n))
+        except NotConstant as ex:
+            memo = self.__dict__.setdefault("_eval_memo", {})
+            key = (mi.name, name)
+            if key not in memo:
+                memo[key] = self._eval_const(mi, name)
+            if memo[key] is _NOT_CONCRETE:
+                raise ex
+            return memo[key]
+
+    def _eval_const(self, mi: ModuleInfo, name: str) -> Any:
+        from . import pai
+        from .pyfacts import Facts
+
+        busy = self.__dict__.setdefault("_eval_busy", set())
+        if (mi.name, name) in busy:
+            return _NOT_CONCRETE
+        busy.add((mi.name, name))
+        try:
+            facts = self.__dict__.get("_eval_facts")
+            if facts is None:
+                facts = self.__dict__["_eval_facts"] = Facts(self)
+            I = pai.Interp(self, facts, stubs={})
+            fr = pai.Frame(I, f"{mi.name}.<module>", None, {})
+            return _concrete(fr.eval(mi.assigns[name]), pai)
+        except (AnalysisError, NotConstant, pai.PyExc, RecursionError):
+            return _NOT_CONCRETE
+        finally:
+            busy.discard((mi.name, name))
 
     def _const_lookup(self, mi: ModuleInfo, name: str) -> Any:
         if name in mi.functions and name not in mi.assigns:
             return mi.functions[name]  # fold() inlines single-return helpers
         if name in mi.assigns:
-            return fold(mi.assigns[name], lambda n: self._const_lookup(mi, n))
+            return self._fold_or_eval(mi, name)
         if name in mi.imports:
             m, n = mi.imports[name]
             m = m.lstrip(".")
@@ -243,6 +295,98 @@ def _blocks(node: ast.stmt) -> list[list[ast.stmt]]:
 
 class NotConstant(Exception):
     pass
+
+
+_NOT_CONCRETE = object()
+
+
+def specialise_factory(factory: ast.FunctionDef, call: ast.Call, name: str) -> ast.FunctionDef | None:
+    """``name = factory(c1, c2)`` where ``factory`` only defines one nested function, decorates it with
+    dunder attributes and returns it, and every argument is a literal: the nested function with the
+    factory's parameters replaced by those literals (closure conversion).  None when the shape differs."""
+    a = factory.args
+    if factory.decorator_list or a.vararg or a.kwarg or a.posonlyargs and False:
+        return None
+    body = [st for st in factory.body if not (isinstance(st, ast.Expr) and isinstance(st.value, ast.Constant))]
+    inner = [st for st in body if isinstance(st, ast.FunctionDef)]
+    if len(inner) != 1 or not body or not isinstance(body[-1], ast.Return):
+        return None
+    fn = inner[0]
+    ret = body[-1].value
+    if not (isinstance(ret, ast.Name) and ret.id == fn.name) or fn.decorator_list:
+        return None
+    for st in body[:-1]:
+        if st is fn:
+            continue
+        ok = (
+            isinstance(st, ast.Assign)
+            and len(st.targets) == 1
+            and isinstance(st.targets[0], ast.Attribute)
+            and isinstance(st.targets[0].value, ast.Name)
+            and st.targets[0].value.id == fn.name
+            and st.targets[0].attr in ("__name__", "__qualname__", "__doc__", "__module__")
+        )
+        if not ok:
+            return None
+    params = [p.arg for p in a.posonlyargs + a.args] + [p.arg for p in a.kwonlyargs]
+    given: dict[str, ast.expr] = {}
+    pos = [p.arg for p in a.posonlyargs + a.args]
+    if len(call.args) > len(pos) or any(isinstance(x, ast.Starred) for x in call.args):
+        return None
+    for p, v in zip(pos, call.args):
+        given[p] = v
+    for k in call.keywords:
+        if k.arg is None or k.arg not in params or k.arg in given:
+            return None
+        given[k.arg] = k.value
+    dflts = dict(zip(pos[len(pos) - len(a.defaults) :], a.defaults))
+    dflts.update({p.arg: d for p, d in zip(a.kwonlyargs, a.kw_defaults) if d is not None})
+    for p in params:
+        if p not in given:
+            if p not in dflts:
+                return None
+            given[p] = dflts[p]
+    if not all(isinstance(v, ast.Constant) for v in given.values()):
+        return None
+    own = {p.arg for p in fn.args.posonlyargs + fn.args.args + fn.args.kwonlyargs}
+    if fn.args.vararg:
+        own.add(fn.args.vararg.arg)
+    if fn.args.kwarg:
+        own.add(fn.args.kwarg.arg)
+    for n in ast.walk(fn):
+        if isinstance(n, (ast.Nonlocal, ast.Global)):
+            return None
+        if isinstance(n, ast.Name) and isinstance(n.ctx, (ast.Store, ast.Del)) and n.id in given:
+            own.add(n.id)  # rebound inside: a local of the nested function, not the captured parameter
+    import copy as _copy
+
+    class Sub(ast.NodeTransformer):
+        def visit_Name(self, n: ast.Name):
+            if isinstance(n.ctx, ast.Load) and n.id in given and n.id not in own:
+                return ast.copy_location(ast.Constant(value=given[n.id].value), n)  # type: ignore[attr-defined]
+            return n
+
+    out = Sub().visit(_copy.deepcopy(fn))
+    out.name = name
+    ast.fix_missing_locations(out)
+    return out
+
+
+def _concrete(v: Any, pai) -> Any:
+    """Analyser value -> plain Python constant (raises NotConstant when any part is symbolic)."""
+    if v is None or isinstance(v, (bool, int, float, str, bytes)):
+        return v
+    if isinstance(v, pai.NTup):
+        return pai.NTup(v.cls, v.fields, [_concrete(x, pai) for x in v])
+    if isinstance(v, tuple):
+        return tuple(_concrete(x, pai) for x in v)
+    if isinstance(v, list):
+        return [_concrete(x, pai) for x in v]
+    if isinstance(v, (set, frozenset)):
+        return frozenset(_concrete(x, pai) for x in v)
+    if isinstance(v, dict):
+        return {_concrete(k, pai): _concrete(x, pai) for k, x in v.items()}
+    raise NotConstant(repr(v)[:60])
 
 
 def fold(node: ast.expr, lookup: Callable[[str], Any] | None = None) -> Any:
